@@ -70,7 +70,7 @@ def cog20_cov(fi):
 UNITS = [
     cog_unit(1, G), cog_unit(2, G), cog_unit(3), cog_unit(4, G), cog_unit(5),
     cog_unit(6, rt=tau_rt),
-    cog_unit(7, rt=tau_rt, props=[], always_oracle=True),
+    cog_unit(7, rt=tau_rt, always_oracle=True),
     cog_unit(8, G, heat=lambda p: (1.0, p['alpha'], p['beta'])),
     cog_unit(9, G, heat=lambda p: (1.0, p['alpha'], p['beta'])),
     cog_unit(10, G, props=[], always_oracle=True,
